@@ -34,6 +34,15 @@ PINNED_PRIVATE = {
 
 _counter = [0]
 
+# parameter names of every function on the pinned tree (frozen table, generated once by ``python -m sa.normalize
+# --pin``): T12 recognises parameters added later
+try:
+    import json as _json
+    import pathlib as _pathlib
+    PINNED_SIGNATURES = _json.loads((_pathlib.Path(__file__).with_name('pinned_signatures.json')).read_text())
+except (OSError, ValueError):
+    PINNED_SIGNATURES = {}
+
 
 def fresh(prefix):
     _counter[0] += 1
@@ -323,15 +332,26 @@ def _live_after(caller, call, name):
     return False
 
 
-def inline_call(target, call, bound_self, mode, caller=None, depth=0):
-    """Statements equivalent to the call.  mode: 'stmt' (value unused), 'return', ('assign', name).  None if not inlinable."""
+def inline_call(target, call, bound_self, mode, caller=None, depth=0, generator=False):
+    """Statements equivalent to the call.  mode: 'stmt' (value unused), 'return', ('assign', name).  None if not inlinable.
+    ``generator``: the statement is ``yield from helper(...)`` inside a generator - the helper's body (a generator body
+    whose yields are plain statements) runs in place of the delegation."""
     node = target.node
     a = node.args
     if a.vararg or a.kwarg or a.posonlyargs or any(isinstance(x, ast.Starred) for x in call.args) \
             or any(k.arg is None for k in call.keywords):
         return None
-    if any(isinstance(n, (ast.Yield, ast.YieldFrom, ast.Global, ast.Nonlocal, ast.AsyncFunctionDef, ast.ClassDef)) for n in ast.walk(node)):
+    if any(isinstance(n, (ast.Global, ast.Nonlocal, ast.AsyncFunctionDef, ast.ClassDef)) for n in ast.walk(node)):
         return None
+    yields = [n for n in _own_walk(list(node.body)) if isinstance(n, (ast.Yield, ast.YieldFrom))]
+    if bool(yields) != bool(generator):
+        return None
+    if generator:
+        plain = {id(st.value) for st in _own_walk(list(node.body)) if isinstance(st, ast.Expr) and isinstance(st.value, (ast.Yield, ast.YieldFrom))}
+        if any(id(y) not in plain for y in yields):
+            return None     # the value sent into a yield is used
+        if any(isinstance(n, ast.Return) and n.value is not None for n in _own_walk(list(node.body))):
+            return None
     params = [x.arg for x in a.args]
     deco = [(chain(d.func if isinstance(d, ast.Call) else d) or [''])[-1] for d in node.decorator_list]
     if any(d not in ('staticmethod', 'classmethod') for d in deco):
@@ -413,8 +433,16 @@ def inline_call(target, call, bound_self, mode, caller=None, depth=0):
             if (len(set(tnames)) == len(tnames) and len({l for l, _ in pairs}) == len(pairs)
                     and all(l in assigned and l not in params for l, _ in pairs) and not (set(tnames) & (read_outside | free))):
                 adopt = dict(pairs)
+    in_use = getattr(caller, '_names_in_use', None)
     for loc in sorted(assigned - set(params)):
-        mapping[loc] = ast.Name(id=adopt.get(loc) or fresh(loc), ctx=ast.Load())
+        name = adopt.get(loc)
+        if name is None and in_use is not None and loc not in in_use and loc not in nested_names:
+            name = loc          # no name of the caller (local, parameter, global it refers to) is shadowed: keep the spelling
+        if name is None:
+            name = fresh(loc)
+        if in_use is not None:
+            in_use.add(name)
+        mapping[loc] = ast.Name(id=name, ctx=ast.Load())
     body = [_Subst(mapping).visit(st) for st in body]
     relpath = target.module.relpath
     step = 1e-4 ** (depth + 1)
@@ -574,8 +602,11 @@ def t5_inline(model, func, body, depth=0):
     out = []
     for s in body:
         call = mode = None
+        gen = False
         if isinstance(s, ast.Expr) and isinstance(s.value, ast.Call):
             call, mode = s.value, 'stmt'
+        elif isinstance(s, ast.Expr) and isinstance(s.value, ast.YieldFrom) and isinstance(s.value.value, ast.Call):
+            call, mode, gen = s.value.value, 'stmt', True
         elif isinstance(s, ast.Return) and isinstance(s.value, ast.Call):
             call, mode = s.value, 'return'
         elif isinstance(s, ast.Assign) and len(s.targets) == 1 and isinstance(s.value, ast.Call):
@@ -583,7 +614,7 @@ def t5_inline(model, func, body, depth=0):
         if call is not None and depth < 3:
             target, bound = resolve_helper(model, func, call)
             if target is not None and target is not func:
-                new = inline_call(target, call, bound, mode, caller=func, depth=depth)
+                new = inline_call(target, call, bound, mode, caller=func, depth=depth, generator=gen)
                 if new is not None:
                     new = _fold_constants(new)
                     for n in new:
@@ -648,15 +679,178 @@ def t9_unpack_forward(body, whole):
     return out
 
 
+def _resolve_callee(model, func, call):
+    """Package function a call certainly refers to: ``f(...)``, ``module.f(...)``, ``Class.m(...)``, ``self.m(...)``,
+    ``cls.m(...)``.  Returns (Func, number of leading parameters bound by the receiver) or (None, 0)."""
+    f = call.func
+    mod = func.module
+
+    def method(cls_, name, via_instance):
+        owner, target = model.lookup(cls_, name)
+        if not hasattr(target, 'node'):
+            return None, 0
+        deco = [(chain(d.func if isinstance(d, ast.Call) else d) or [''])[-1] for d in target.node.decorator_list]
+        if any(d not in ('staticmethod', 'classmethod') for d in deco):
+            return None, 0
+        if 'staticmethod' in deco:
+            return target, 0
+        if 'classmethod' in deco or via_instance:
+            return target, 1
+        return target, 0
+
+    if isinstance(f, ast.Name):
+        cur = func
+        while cur is not None:
+            if f.id in cur.nested:
+                return cur.nested[f.id], 0
+            cur = cur.parent
+        if f.id in mod.funcs and mod.funcs[f.id].cls is None and mod.funcs[f.id].parent is None:
+            return mod.funcs[f.id], 0
+        return None, 0
+    if isinstance(f, ast.Attribute) and isinstance(f.value, ast.Name):
+        base = f.value.id
+        if func.cls is not None and func.params and base == func.params[0] and base in ('self', 'cls'):
+            # the concrete class may override: only when every class of the family resolves the name to the same function
+            found = set()
+            for m in model.modules.values():
+                for c in m.classes.values():
+                    if func.cls in model.mro(c):
+                        found.add(model.lookup(c, f.attr)[1])
+            found.discard(None)
+            if len(found) == 1 and hasattr(next(iter(found)), 'node'):
+                target = next(iter(found))
+                deco = [(chain(d.func if isinstance(d, ast.Call) else d) or [''])[-1] for d in target.node.decorator_list]
+                if any(d not in ('staticmethod', 'classmethod') for d in deco):
+                    return None, 0
+                return target, (0 if 'staticmethod' in deco else 1)
+            return None, 0
+        if base in mod.classes:
+            return method(mod.classes[base], f.attr, False)
+        imp = mod.imports.get(base)
+        if imp and imp.startswith('pkg:'):
+            key = imp[4:]
+            if key in model.modules:
+                target = model.modules[key].funcs.get(f.attr)
+                if target is not None and target.cls is None and target.parent is None:
+                    return target, 0
+                return None, 0
+            modname, _, cname = key.rpartition('.')
+            m = model.modules.get(modname)
+            if m is not None and cname in m.classes:
+                return method(m.classes[cname], f.attr, False)
+    return None, 0
+
+
+def t10_keywords_to_positional(model, func, node):
+    """T10: ``f(a, y=b)`` -> ``f(a, b)`` when the call certainly refers to a package function whose next positional
+    parameter is ``y`` (keywords are moved only while they continue the positional prefix; argument evaluation order
+    is the written order either way because keywords follow positionals)."""
+    for call in [n for n in ast.walk(node) if isinstance(n, ast.Call)]:
+        if not call.keywords or any(k.arg is None for k in call.keywords) or any(isinstance(a, ast.Starred) for a in call.args):
+            continue
+        target, skip = _resolve_callee(model, func, call)
+        if target is None:
+            continue
+        a = target.node.args
+        if a.vararg is not None or a.posonlyargs:
+            continue
+        params = [x.arg for x in a.args][skip:]
+        kw = {k.arg: k for k in call.keywords}
+        moved = []
+        i = len(call.args)
+        # keywords must keep their relative order when moved, or evaluation order would change
+        order = [k.arg for k in call.keywords]
+        while i < len(params) and params[i] in kw and order and order[0] == params[i]:
+            moved.append(kw[params[i]].value)
+            order.pop(0)
+            i += 1
+        if moved:
+            call.args = list(call.args) + moved
+            call.keywords = [k for k in call.keywords if k.arg in order]
+
+
+def t11_yield_from_genexp(body):
+    """T11: the statement ``yield from (E for x in IT if C)`` -> ``for x in IT: if C: yield E`` (single generator; the
+    delegating form yields exactly the elements the loop yields, in the same order and as lazily)."""
+    out = []
+    for s in body:
+        v = s.value if isinstance(s, ast.Expr) else None
+        if (isinstance(v, ast.YieldFrom) and isinstance(v.value, ast.GeneratorExp) and len(v.value.generators) == 1
+                and not v.value.generators[0].is_async):
+            g = v.value.generators[0]
+            inner = [ast.copy_location(ast.Expr(value=ast.copy_location(ast.Yield(value=v.value.elt), s)), s)]
+            for c in reversed(g.ifs):
+                inner = [ast.copy_location(ast.If(test=c, body=inner, orelse=[]), s)]
+            loop = ast.For(target=g.target, iter=g.iter, body=inner, orelse=[])
+            for n in ast.walk(loop.target):
+                if isinstance(n, ast.Name):
+                    n.ctx = ast.Store()
+            out.append(ast.copy_location(loop, s))
+            continue
+        out.append(s)
+    return out
+
+
+def _passed_somewhere(model, func, name, index):
+    """Does any call in the package that may refer to ``func`` (matched by name, conservatively) pass parameter ``name``
+    (by keyword, by position, or through * / ** unpacking)?"""
+    callee = func.cls.name if (func.cls is not None and func.name == '__init__') else func.name
+    for mod in model.modules.values():
+        for n in ast.walk(mod.tree):
+            if not isinstance(n, ast.Call) or (chain(n.func) or [''])[-1] != callee:
+                continue
+            if any(k.arg == name or k.arg is None for k in n.keywords) or any(isinstance(a, ast.Starred) for a in n.args):
+                return True
+            if index is not None and len(n.args) >= index:      # index counts self/cls: conservative for bound calls
+                return True
+    return False
+
+
+def t12_new_parameters(model, func, node):
+    """T12: a parameter that the pinned tree's signature of this function does not have, that has a literal default and is
+    never rebound, is replaced by that default (then folded).  The properties quantify over the API as it is documented
+    today; what a *new* optional argument does when it is given is outside every property, what the function does when
+    it is not given is exactly this specialisation."""
+    pinned = PINNED_SIGNATURES.get(func.key)
+    if pinned is None:
+        return False
+    a = node.args
+    changed = False
+    pos_defaults = dict(zip([x.arg for x in a.args][len(a.args) - len(a.defaults):], a.defaults))
+    kw_defaults = {x.arg: d for x, d in zip(a.kwonlyargs, a.kw_defaults) if d is not None}
+    stored = {n.id for n in ast.walk(node) if isinstance(n, ast.Name) and isinstance(n.ctx, (ast.Store, ast.Del))}
+    mapping = {}
+    positions = {x.arg: i for i, x in enumerate(a.args)}
+    for name, d in list(pos_defaults.items()) + list(kw_defaults.items()):
+        if name in pinned or name in stored or not isinstance(d, ast.Constant):
+            continue
+        if _passed_somewhere(model, func, name, positions.get(name)):
+            continue        # an internal caller chooses a value: that path is part of the package's behaviour
+        mapping[name] = d
+    if not mapping:
+        return False
+    node.body = [_Subst(mapping).visit(st) for st in node.body]
+    node.body = _fold_constants(node.body)
+    return True
+
+
 # ------------------------------------------------------------------------------------------------------ driver
 
 def normalize_function(model, func):
     """Return a normalised deep copy of ``func.node`` (the original is left untouched)."""
     node = copy.deepcopy(func.node)
     holder = ast.Module(body=[node], type_ignores=[])
+    func._names_in_use = ({n.id for n in ast.walk(node) if isinstance(n, ast.Name)} | {a.arg for n in ast.walk(node) if isinstance(n, ast.arguments)
+                                                                                      for a in n.posonlyargs + n.args + n.kwonlyargs + [x for x in (n.vararg, n.kwarg) if x]}
+                          | {n.name for n in ast.walk(node) if isinstance(n, (ast.FunctionDef, ast.ClassDef))})
+    cur = func.parent
+    while cur is not None:      # closure variables of enclosing functions the body may come to read
+        func._names_in_use |= {n.id for n in ast.walk(cur.node) if isinstance(n, ast.Name)} | set(cur.params)
+        cur = cur.parent
 
     def passes(block):
         block = t5_inline(model, func, block)
+        block = t11_yield_from_genexp(block)
         block = t9_unpack_forward(block, node)
         block = t3_list_sort(block)
         text = ast.unparse(ast.Module(body=block, type_ignores=[]))
@@ -666,7 +860,24 @@ def normalize_function(model, func):
         block = t6_hoist_else(block)
         return block
 
+    t12_new_parameters(model, func, node)
     transform_blocks(node, passes)
     node = _T7().visit(node)
+    t10_keywords_to_positional(model, func, node)
     ast.fix_missing_locations(holder)
     return node
+
+
+if __name__ == '__main__':
+    import sys
+    if '--pin' in sys.argv:
+        import json
+        import pathlib
+        from .model import Model
+        m = Model()
+        table = {}
+        for f in m.all_funcs():
+            a = f.orig.args if hasattr(f, 'orig') and f.orig is not None else f.node.args
+            table[f.key] = [x.arg for x in a.posonlyargs + a.args + a.kwonlyargs] + [x.arg for x in (a.vararg, a.kwarg) if x]
+        pathlib.Path(__file__).with_name('pinned_signatures.json').write_text(json.dumps(table, indent=0, sort_keys=True))
+        print(len(table), 'signatures pinned')
